@@ -39,10 +39,35 @@ func idsOf(ls []*go9p.Log) []int {
 			out = append(out, -1)
 			continue
 		}
-		id, _ := l.Data.(int)
-		out = append(out, id)
+		out = append(out, c20ID(l.Data))
 	}
 	return out
+}
+
+// the logger accepts any data value: entries carry their id as an int, as a message
+// (the kind of value the library itself logs) of type 0, or as a string
+func c20Data(id int) interface{} {
+	switch id % 3 {
+	case 1:
+		return &go9p.Fcall{Tag: uint16(id)}
+	case 2:
+		return fmt.Sprint(id)
+	}
+	return id
+}
+
+func c20ID(d interface{}) int {
+	switch v := d.(type) {
+	case int:
+		return v
+	case *go9p.Fcall:
+		return int(v.Tag)
+	case string:
+		n := 0
+		fmt.Sscan(v, &n)
+		return n
+	}
+	return -2
 }
 
 func eqInts(a, b []int) bool {
@@ -121,7 +146,7 @@ func c20SequentialTypes(n int, maxLen int, tv [3]int) Scenario {
 			body := func() {
 				l := go9p.NewLogger(n)
 				for k, it := range seq {
-					l.Log(it.id, c20Owners[it.owner], tv[it.typ])
+					l.Log(c20Data(it.id), c20Owners[it.owner], tv[it.typ])
 					// an immediate Filter may lag, but must be a window of a prefix
 					got := idsOf(l.Filter(nil, 0))
 					ok := false
@@ -199,7 +224,7 @@ func c20Concurrent(p c20Params) Scenario {
 			vs.Go("producer", func() {
 				for j := 0; j < cnt; j++ {
 					it := logItem{id: base + j + 1, owner: 1 + pi%2, typ: 1 + j%2}
-					l.Log(it.id, c20Owners[it.owner], it.typ)
+					l.Log(c20Data(it.id), c20Owners[it.owner], it.typ)
 					sent = append(sent, it)
 				}
 			})
